@@ -384,16 +384,23 @@ func (h *OperationProvider) getCoreIndexFile(uri string, alternateSources ...str
 }
 
 func (h *OperationProvider) validateCoreIndexFile(cif *models.CoreIndexFile) error {
+	createNum := 0
 	recoverNum := 0
 	deactivateNum := 0
 
 	if cif.Operations != nil {
+		createNum = len(cif.Operations.Create)
 		recoverNum = len(cif.Operations.Recover)
 		deactivateNum = len(cif.Operations.Deactivate)
 	}
 
 	if recoverNum+deactivateNum > 0 && cif.CoreProofFileURI == "" {
 		return errors.New("missing core proof file URI")
+	}
+
+	// create and recover operations have deltas, which are in the chunk file referenced by the provisional index file
+	if createNum+recoverNum > 0 && cif.ProvisionalIndexFileURI == "" {
+		return errors.New("missing provisional index file URI")
 	}
 
 	if recoverNum+deactivateNum == 0 && len(cif.CoreProofFileURI) > 0 {
